@@ -14,7 +14,7 @@ RULE = ("protocol-conformant libovni programs (1-3 threads of one process, turn-
         "reference model (bursts incl. jumbo bursts, marks defined through the mark API, OHp/OHr/OHc/OHw, OAs, "
         "regions and tasks of required models), clocks from ovni_clock_now(), OHe, flush, thread_free, proc_fini; "
         "half of the programs put a filler jumbo burst so that later events cross the 2 MiB buffer boundary, "
-        "including jumbo events of every total size MAX-40..MAX-1 on an empty or one-event buffer.  Oracle: "
+        "including jumbo events of every total size MAX-40..MAX-1 on an empty or one-event buffer; 40% of the runs under a shim that turns every write() into a real short write.  Oracle: "
         "(1) every stream.obs passes the independent validator (header, tiling, non-decreasing clocks, OF[ / OF] "
         "strictly alternating, never nested or left open) and equals the emit log; (2) stream.json is complete "
         "(version 3, part, tid, pid, loom, app_id, require, lib.version/commit, finished = 1, the CPUs added); "
@@ -26,7 +26,7 @@ MAX = rt.MAX_EV_BUF
 
 def setup(ctx):
     b = ctx.b("asan")
-    return {"rtdrv": rt.compile_driver(b)}
+    return {"rtdrv": rt.compile_driver(b), "shim": rt.compile_shim(b)}
 
 
 def models_draw(draw):
@@ -57,7 +57,7 @@ def programs(draw):
             else:
                 delta = draw(st.integers(1, 40))
             fill.append([t, pos, mode, delta, draw(st.integers(0, 1))])
-    return {"trace": tr, "fill": fill}
+    return {"trace": tr, "fill": fill, "short": draw(st.sampled_from([None, None, None, "half", "one"]))}
 
 
 def to_script(case):
@@ -163,7 +163,8 @@ def run(case, ctx):
     tr = case["trace"]
     d = ctx.newdir()
     try:
-        rr = rt.run_script(ctx.shared["rtdrv"], lines, d)
+        env = rt.shim_env(ctx.shared["shim"], short=case["short"]) if case.get("short") else None
+        rr = rt.run_script(ctx.shared["rtdrv"], lines, d, env=env)
         if rr.res.kind != "ok":
             raise Violation("driver did not finish: %s" % rr.res.brief())
         refused = [(who, ln) for who, lg in rr.logs.items() for ln, v in lg.items() if v[0] == "refused"]
